@@ -131,7 +131,7 @@ func c11History(c *rt.Ctx, h int) {
 			c.Disagree("view-state|leaks-into-parent|history", fmt.Sprintf("Sub(%q): after %s the file system the view was created from has user %s (was %s), umask %04o (was %04o), cwd %s (was %s)", dir, last, P.User().Name(), pu0, uint32(P.UMask()), uint32(pm0), mustWd(P), pd0), replay())
 			return
 		}
-		s := fsx.Snap(Q, dir, fsx.SnapOpts{})
+		s := fsx.Snap(Q, dir, fsx.SnapOpts{SentMtime: true})
 		// paths of the twin's subtree, expressed in the view's namespace
 		var recs []fsx.Rec
 		for _, rec := range s.Recs {
@@ -272,7 +272,7 @@ func c11History(c *rt.Ctx, h int) {
 				return
 			}
 		}
-		sp, sq := fsx.Snap(P, "/", fsx.SnapOpts{}), fsx.Snap(Q, "/", fsx.SnapOpts{})
+		sp, sq := fsx.Snap(P, "/", fsx.SnapOpts{SentMtime: true}), fsx.Snap(Q, "/", fsx.SnapOpts{SentMtime: true})
 		// the twin is itself driven through a view of "/" (it has to carry the user, umask and cwd of the view): what a view
 		// and its parent could get wrong *together* - the identity of the nodes each of them creates - is judged on the
 		// parent's tree alone, with the C05 public invariants (link counts against SameFile paths, no aliased directory)
@@ -281,7 +281,7 @@ func c11History(c *rt.Ctx, h int) {
 			return
 		}
 		if sp.String() != sq.String() {
-			c.Disagree("view|tree-differs-from-twin|"+strings.SplitN(strings.SplitN(hist[len(hist)-1], ": ", 2)[1], "(", 2)[0], fmt.Sprintf("Sub(%q): after %s the parent's tree differs from the twin driven with prefixed paths: %v", dir, hist[len(hist)-1], fsx.Diff(sp, sq, false, 6)), replay())
+			c.Disagree("view|tree-differs-from-twin|"+strings.SplitN(strings.SplitN(hist[len(hist)-1], ": ", 2)[1], "(", 2)[0], fmt.Sprintf("Sub(%q): after %s the parent's tree differs from the twin driven with prefixed paths: %v", dir, hist[len(hist)-1], fsx.Diff(sp, sq, true, 6)), replay())
 			return
 		}
 	}
@@ -374,8 +374,8 @@ func c11Detached(c *rt.Ctx, h int) {
 			return
 		}
 	}
-	if sp, sq := fsx.Snap(P, "/", fsx.SnapOpts{}), fsx.Snap(Q, "/", fsx.SnapOpts{}); sp.String() != sq.String() {
-		c.Disagree("view-of-removed-directory|tree-differs-from-twin", fmt.Sprintf("Sub(%q), then %s: after the calls through the view the parent's tree differs from the twin's: %v", dir, what, fsx.Diff(sp, sq, false, 6)), replay())
+	if sp, sq := fsx.Snap(P, "/", fsx.SnapOpts{SentMtime: true}), fsx.Snap(Q, "/", fsx.SnapOpts{SentMtime: true}); sp.String() != sq.String() {
+		c.Disagree("view-of-removed-directory|tree-differs-from-twin", fmt.Sprintf("Sub(%q), then %s: after the calls through the view the parent's tree differs from the twin's: %v", dir, what, fsx.Diff(sp, sq, true, 6)), replay())
 		return
 	}
 	c.Rep.Count("detached_view_scenarios", 1)
@@ -392,7 +392,7 @@ func init() {
 		Shards: shards(8, 16),
 		Meta: func(tier string) rt.Meta {
 			return rt.Meta{Level: "exploration", MinEvals: 2000, MinDistinct: 20,
-				Rule:        "twin MemFS instances P and P' with identical random trees and users; every call through V = P.Sub(dir) (dir in /, /w, /w/a, /w/a/b; one history in three through a nested view) is also issued on P' with the dir-prefixed absolute path as the same user and umask; outcome class and values must be equal and the full snapshots of P and P' must be equal after every call (which also shows that nothing outside dir moved). Parent-side calls are mixed in (visibility), per-view SetUser/SetUMask/Chdir are followed by isolation assertions on the parent and a sibling view. Path shapes: absolute, relative to the view's cwd, unclean, '.', '..'. Chdir through the view is also asked of the twin's counterpart view; the mode of the view's root is changed through the parent; user, umask and cwd of the parent itself are asserted unchanged at every step. Plus views whose root directory is removed together with an ancestor (RemoveAll through the parent or through an enclosing view): every probe through the view answers as the twin parent does for the prefixed path. Signature = actor | call kind | outcome; all non-trivial (random trees).",
+				Rule:        "twin MemFS instances P and P' with identical random trees and users; every call through V = P.Sub(dir) (dir in /, /w, /w/a, /w/a/b; one history in three through a nested view) is also issued on P' with the dir-prefixed absolute path as the same user and umask; outcome class and values must be equal and the full snapshots of P and P' must be equal after every call (which also shows that nothing outside dir moved). Parent-side calls are mixed in (visibility), per-view SetUser/SetUMask/Chdir are followed by isolation assertions on the parent and a sibling view. Path shapes: absolute, relative to the view's cwd, unclean, '.', '..'. Chdir through the view is also asked of the twin's counterpart view; the mode of the view's root is changed through the parent; user, umask and cwd of the parent itself are asserted unchanged at every step. Plus views whose root directory is removed together with an ancestor (RemoveAll through the parent or through an enclosing view): every probe through the view answers as the twin parent does for the prefixed path. Sentinel modification times set by Chtimes are part of the tree comparison with the twin. Signature = actor | call kind | outcome; all non-trivial (random trees).",
 				Assumptions: []string{"symlink-free trees (as the property states)", "temp-name calls and Getwd/EvalSymlinks results are not compared"}}
 		},
 		Run: func(c *rt.Ctx) {
